@@ -288,3 +288,79 @@ func (b *Bucket) VerifShape() string {
 
 // VerifRootShape is VerifShape of the transaction's root bucket.
 func (tx *Tx) VerifRootShape() string { return tx.root.VerifShape() }
+
+// VerifNodeSplit builds a detached node whose inodes have the given key and value sizes and
+// returns how many inodes each piece of node.split(pageSize) holds (pure: no database needed).
+func VerifNodeSplit(pageSize int, fillPercent float64, isLeaf bool, sizes [][2]int) []int {
+	tx := &Tx{db: &DB{pageSize: pageSize}}
+	b := &Bucket{tx: tx, FillPercent: fillPercent}
+	n := &node{bucket: b, isLeaf: isLeaf}
+	for i, s := range sizes {
+		var in common.Inode
+		key := make([]byte, s[0])
+		// distinct increasing keys are not needed by split; keep them distinguishable anyway
+		if len(key) > 0 {
+			key[0] = byte(i)
+		}
+		in.SetKey(key)
+		in.SetValue(make([]byte, s[1]))
+		n.inodes = append(n.inodes, in)
+	}
+	var out []int
+	for _, p := range n.split(uintptr(pageSize)) {
+		out = append(out, len(p.inodes))
+	}
+	return out
+}
+
+// VerifNodeSize is node.size() for such a node.
+func VerifNodeSize(isLeaf bool, sizes [][2]int) int {
+	n := &node{isLeaf: isLeaf}
+	for _, s := range sizes {
+		var in common.Inode
+		in.SetKey(make([]byte, s[0]))
+		in.SetValue(make([]byte, s[1]))
+		n.inodes = append(n.inodes, in)
+	}
+	return n.size()
+}
+
+// VerifNodePutDel applies put (del == false) / del operations on a detached leaf node and
+// returns the resulting keys in node order.
+func VerifNodePutDel(keys [][]byte, del []bool) [][]byte {
+	tx := &Tx{db: &DB{pageSize: 4096}, meta: &common.Meta{}}
+	tx.meta.SetPgid(1 << 40)
+	b := &Bucket{tx: tx, FillPercent: DefaultFillPercent}
+	n := &node{bucket: b, isLeaf: true}
+	for i, k := range keys {
+		if del[i] {
+			n.del(k)
+		} else {
+			n.put(k, k, []byte("v"), 0, 0)
+		}
+	}
+	var out [][]byte
+	for i := range n.inodes {
+		out = append(out, n.inodes[i].Key())
+	}
+	return out
+}
+
+// VerifInlineable is Bucket.inlineable() for a bucket whose root leaf holds elements of the
+// given sizes (hasBucket: one of them is a nested bucket).
+func VerifInlineable(pageSize int, sizes [][2]int, hasBucket bool) bool {
+	tx := &Tx{db: &DB{pageSize: pageSize}}
+	b := &Bucket{tx: tx}
+	n := &node{bucket: b, isLeaf: true}
+	for i, s := range sizes {
+		var in common.Inode
+		in.SetKey(make([]byte, s[0]))
+		in.SetValue(make([]byte, s[1]))
+		if hasBucket && i == len(sizes)-1 {
+			in.SetFlags(common.BucketLeafFlag)
+		}
+		n.inodes = append(n.inodes, in)
+	}
+	b.rootNode = n
+	return b.inlineable()
+}
